@@ -134,6 +134,8 @@ type Interp struct {
 	// Inline: import-path prefixes of library packages whose functions are evaluated like module code
 	Inline   []string
 	MaxDepth int
+	// OnGoValue, when set, receives the callee value (a closure with its bindings) and arguments of every go statement
+	OnGoValue func(ip *Interp, fv AV, args []AV)
 	// Recover: panics unwind through deferred calls and recover() works (default: a modelled panic ends the evaluation)
 	Recover      bool
 	panicFrames  []*aframe
@@ -905,6 +907,14 @@ func (ip *Interp) loop(fr *aframe, b *ssa.BasicBlock, cur *ssa.Instruction) AV {
 				}
 				m.M[k] = copyVal(ip.operand(fr, x.Value))
 			case *ssa.Go:
+				if ip.OnGoValue != nil {
+					cc := x.Call
+					if cc.IsInvoke() {
+						ood("go statement on an interface method")
+					}
+					ip.OnGoValue(ip, ip.calleeValue(fr, &cc), ip.evalArgs(fr, &cc))
+					continue
+				}
 				if ip.OnGo == nil {
 					ood("go statement")
 				}
